@@ -157,6 +157,11 @@ def write_evidence(pid, tier, seed, mod, ctx, wall, extra=None, status="ok"):
         "known_findings": [{"instance": o.inst, "at": o.loc, "detail": o.msg} for o in listed],
         "fixed_entries_for_property": [list(x) for x in fixed if x[0] == pid],
         "notes": ctx.notes if ctx else [],
+        "normalisations": {
+            "what": "applied to the extracted program before any rule ran (analysis/inline.py, Program._canonical_params); empty on the reference tree",
+            "inlined_helpers": list(getattr(ctx.prog, "folded_helpers", [])) if ctx else [],
+            "parameters_renamed_to_reference_names": list(getattr(ctx.prog, "params_canonicalised", [])) if ctx else [],
+        },
         "exhaustive": False,
         "status": status,
     }
